@@ -52,6 +52,17 @@ func moduleCone(p *Prog, roots []*ssa.Function) []*ssa.Function {
 				if mc, ok := in.(*ssa.MakeClosure); ok {
 					visit(mc.Fn.(*ssa.Function))
 				}
+				// a module type handed out as an interface value (an io.Reader given to a decoder, say): whoever receives it
+				// may call any of its methods
+				if mi, ok := in.(*ssa.MakeInterface); ok && typeStr(mi.Type()) != "error" && typeStr(mi.Type()) != "interface{}" && typeStr(mi.Type()) != "any" {
+					// (an error value or an `any` argument is looked at by the caller of the entry point, after it returned)
+					ms := p.SSA.MethodSets.MethodSet(mi.X.Type())
+					for i := 0; i < ms.Len(); i++ {
+						if m := p.SSA.MethodValue(ms.At(i)); m != nil && m.Blocks != nil && p.inModule(m) && m.Synthetic == "" {
+							visit(m)
+						}
+					}
+				}
 				if ci, ok := in.(ssa.CallInstruction); ok && ci.Common().IsInvoke() {
 					for _, m := range p.moduleImpls(ci.Common()) {
 						visit(m)
